@@ -237,6 +237,21 @@ CLAIMED = {
    technique="proxy execution of the real loop closures in an index-function domain with summation atoms; loop contracts by the invariant rule; code-equals-spec-function "
              "obligations discharged by z3/cvc5; bounded execution of the real code for the theorem-level clauses",
    engine="IDX"),
+ "C13": dict(
+   category="proof",
+   text="The real gmres_fwd and gmres run in the index domain with sum atoms over symbolic n, number of columns, cap, arbitrary right-hand sides and x0, with the Arnoldi "
+        "factors Q (b,n,m+1), H (b,m+1,m) of the callee contract: the result is proved equal, entry by entry, to x0 + Q[:, :m] y where y solves the regularised normal "
+        "equations (H^H H + diag(pad)) y = H^H e1, scaled by beta = ||b - A x0||, over the FULL (m+1) x m Hessenberg matrix, with pad/mask exactly the columns whose "
+        "largest entry is below 10 tol max|H|; Arnoldi is started from the initial residual with the caller's cap and tolerance; A is applied exactly once outside the "
+        "Arnoldi process; vector right-hand sides, default x0 and forwarding in gmres().",
+   design_ref="4.13",
+   note="That this y minimises the residual over x0 + K_m (hence residual <= initial, monotone in m, exact at the degree of the minimal polynomial) follows from the Arnoldi "
+        "relation and the normal equations (Saad & Schultz 1986), ASSUMED; it is exercised by a bounded stand-in on the real code against a reference least-squares solution "
+        "(n <= 24, every m = 1..n+3), labelled bounded. Arnoldi itself is C15's (callee contract). The product count is read as Krylov products (the initial residual costs one "
+        "more). use_triangular / use_householder variants outside the domain; the NumPy backend needs the vmap shim to run gmres at all.",
+   technique="proxy execution of the real gmres_fwd in an index-function domain with summation and linear-solve atoms; code-equals-spec-function obligations discharged by z3/cvc5; "
+             "bounded execution of the real code for optimality",
+   engine="IDX"),
 }
 
 NOT_YET = "check not built yet in this session (framework under construction; see DESIGN.md section 10 for the order of work)"
